@@ -142,7 +142,10 @@ class C16(core.Check):
     partial_note = (
         "Theorems cover discrete curves, the polyline arithmetic of all lengths, the linear interpolant and curve edges. "
         "Spline curves: through-points/ends/closest parameter are validator checks; their length is not additive between "
-        "knots (known finding). Analytic curves: additivity only up to the discretisation error (2e-3)."
+        "knots (known finding). Analytic curves: the polyline of one discretisation is exactly additive at its sample points and "
+        "monotone (theorems, every sample count), additivity between arbitrary parameters only up to the re-sampling with 100 points "
+        "(2e-3, oracle); CircleCurve over the reals: chord sum <= arc length and closest parameter = the query's angle (theorems), the "
+        "minimiser's answer is validated against the closed-form distance to the circle; scipy's minimiser and spline interpolation stay oracles."
     )
 
     # ------------------------------------------------------------------ generators
